@@ -1,10 +1,11 @@
-\* C44 leg A quick: 2 shards, worlds of <= 2 series, values {1,2}, op sum, depth 1 + label_replace
+\* C44 leg A quick: 2 shards, worlds of <= 2 series, value 1, op sum, depth 1 + label_replace + by-chains of depth 3
 SPECIFICATION Spec
 CONSTANTS NShards = 2
           MaxSeries = 2
-          Vals = {1, 2}
+          Vals = {1}
           Ops = {"sum"}
           WithLrep = TRUE
           Depth2 = FALSE
+          Depth3 = "by"
 INVARIANT C44_ShardedEqualsUnsharded
 CHECK_DEADLOCK FALSE
